@@ -341,7 +341,7 @@ def c18(ctx):
     for t, m in list(zip(traces, metas))[:1] + list(zip(traces, metas))[-2:]:
         ctx.sample({"meta": m, "max": t["max"], "jit": t["jit"], "events": t["ev"][:8]})
     ctx.assumptions += ["real-process runs: 2 workers, loopback TCP, quiescent tail 2.6 s before the process table is read",
-                        "keep-alive clients are not used (closing an idle keep-alive connection at recycling is not a drop)"]
+                        "closing an idle keep-alive connection at recycling is not a drop (mode parked: its client carries on like a new client)"]
 
 
 def replay(ctx, data):
